@@ -278,7 +278,7 @@ def check_ref_fields(vc, ref, raw, names):
         vc.ensure('empty_fields_omitted', Implies(key in ref, And(present, v is not None)))
         vc.ensure('fields_from_the_body', Implies(And(present, _truthy(v)), key in ref))
         if key in ref:
-            vc.ensure('fields_from_the_body', present and ref[key] is v)
+            vc.ensure('fields_from_the_body', And(present, Or(ref[key] is v, Eq(ref[key], v))))
 
 
 def _as_body(vc, raw):
@@ -475,3 +475,463 @@ def KC2(vc):
     vc.ensure('pure', _unchanged(raw, before))
     vc.canary('canary.never_deleted', Not(got))
     return ('deleted', got)
+
+
+# =============================================================================================== causes: the kwargs
+EXECUTION = 'kopf._core.actions.execution'
+INVOCATION = 'kopf._core.actions.invocation'
+
+# docs/kwargs.rst (+ the callback protocols of kopf/_core/intents/callbacks.py): which names a callback of each kind
+# receives, and which part of the cause each is.  `RES`: the same-named record of the cause; the body parts: see below.
+RES = ('resource', 'body', 'logger', 'patch', 'memo')
+DOCUMENTED = {
+    'ActivityCause': ('settings', 'logger', 'memo'),
+    'ResourceCause': RES,
+    'IndexingCause': RES,
+    'WatchingCause': RES + ('event', 'type'),
+    'SpawningCause': RES,
+    'ChangingCause': RES + ('reason', 'old', 'new', 'diff'),
+    'DaemonCause': RES,
+    'WebhookCause': RES + ('dryrun', 'warnings', 'subresource', 'userinfo', 'headers', 'sslpeer'),
+}
+RESOURCE_CAUSES = tuple(k for k in DOCUMENTED if k != 'ActivityCause')
+VIEW_PARTS = {'spec': ('spec',), 'meta': ('metadata',), 'status': ('status',), 'labels': ('metadata', 'labels'),
+              'annotations': ('metadata', 'annotations')}
+FIELD_PARTS = {'uid': ('metadata', 'uid'), 'name': ('metadata', 'name'), 'namespace': ('metadata', 'namespace')}
+# record fields the framework keeps to itself (not in docs/kwargs.rst): a *_kwargs builder MAY drop them
+INTERNAL = {'WebhookCause': ('reason', 'webhook'), 'SpawningCause': ('reset',), 'ChangingCause': ('initial',), 'DaemonCause': ('stopper',)}
+SHAPES = ('full', 'cluster-scoped, bare', 'no metadata', 'nulls and empty stanzas')
+
+
+def draw_shaped_raw(vc, tag=''):
+    """A raw body of one of the SHAPES; the identifying fields and the label/annotation/spec/status values are arbitrary
+    strings (possibly empty), each its own symbolic value."""
+    shape = SHAPES[vc.nondet(len(SHAPES), f'shape of the body{tag}')]
+    s = lambda n: vc.str(n + tag)
+    if shape == 'full':
+        return {'metadata': {'uid': s('uid'), 'name': s('name'), 'namespace': s('namespace'), 'labels': {'l': s('label')},
+                             'annotations': {'a': s('annotation')}}, 'spec': {'f': s('spec.f')}, 'status': {'g': s('status.g')}}
+    if shape == 'cluster-scoped, bare':
+        return {'metadata': {'uid': s('uid'), 'name': s('name')}}
+    if shape == 'no metadata':
+        return {'kind': 'Something'}
+    return {'metadata': {'uid': None, 'name': None, 'namespace': None, 'labels': {}, 'annotations': {}}, 'spec': {}, 'status': {}}
+
+
+def full_raw(vc, tag):
+    s = lambda n: vc.str(n + tag)
+    return {'metadata': {'uid': s('uid'), 'name': s('name'), 'namespace': s('namespace'), 'labels': {'l': s('label'), 'l2': ''},
+                         'annotations': {'a': s('annotation')}}, 'spec': {'f': s('spec.f')}, 'status': {'g': s('status.g')}}
+
+
+class IndicesView(__import__('collections').abc.Mapping):
+    """ephemera.Indices by contract: a read-only mapping index-name -> index (like indexing.OperatorIndices)"""
+    def __init__(self, d): self._d = dict(d)
+    def __len__(self): return len(self._d)
+    def __iter__(self): return iter(self._d)
+    def __getitem__(self, k): return self._d[k]
+
+
+INDEX_SETS = ((), ('by_label',), ('by_label', 'labels'), ('body', 'stopped', 'by_label'))
+
+
+def draw_indices(vc):
+    """no indices / one / some named like framework kwargs ('labels'; 'body', 'stopped': the operator's index wins)"""
+    names = INDEX_SETS[vc.nondet(len(INDEX_SETS), 'declared indices')]
+    return IndicesView({n: Opaque(f'index:{n}') for n in names})
+
+
+def make_cause(vc, clsname, *, body=None, indices=None):
+    """A REAL instance of causes.<clsname>: every field its own opaque record, except those given."""
+    import dataclasses
+    from kopf._core.intents import causes
+    cls = getattr(causes, clsname) if hasattr(causes, clsname) else None
+    if clsname == 'Cause':
+        from kopf._core.actions import execution
+        cls = execution.Cause
+    vals = {f.name: Opaque(f'record:{f.name}') for f in dataclasses.fields(cls)}
+    if 'body' in vals and body is not None:
+        vals['body'] = body
+    if 'indices' in vals:
+        vals['indices'] = indices if indices is not None else IndicesView({})
+    if 'warnings' in vals:
+        vals['warnings'] = []
+    if 'stopper' in vals:
+        vals['stopper'] = Opaque('stopper', sync_waiter=Opaque('stopper.sync_waiter'), async_waiter=Opaque('stopper.async_waiter'))
+    return cls(**vals)
+
+
+def record_kwargs(cause, without=()):
+    """CONTRACT of the lower builders, as a dict: every record (dataclass field) of the cause under its own name"""
+    import dataclasses
+    return {f.name: getattr(cause, f.name) for f in dataclasses.fields(cause) if f.name not in without}
+
+
+def parent_stub(**attrs):
+    """`super()` inside an extracted builder: the base class's builder BY CONTRACT -- what it promises (the given
+    entries) plus, possibly, entries the contract does not speak about (the marker entry)"""
+    attrs = {k: dict(v, **{'<more>': Opaque('an entry the parent added')}) for k, v in attrs.items()}
+    return (lambda: Opaque('super()', **attrs)), attrs
+
+
+def kept(kw, parent, except_=()):
+    return all(k in kw and kw[k] is v for k, v in parent.items() if k not in except_)
+
+
+def parts_bound(kw, raw, skip=()):
+    """SPEC (docs/kwargs.rst "Body parts"): spec/meta/status/labels/annotations show raw's stanzas (as empty dicts when
+    absent); uid/name/namespace are metadata's fields, None when not there."""
+    conds = []
+    for name, path in VIEW_PARTS.items():
+        if name in skip:
+            continue
+        present, v = _field(raw, path)
+        want = v if present else {}
+        view = kw.get(name)
+        if view is None or set(view) != set(want) or len(view) != len(want) or view.get('no-such-key', _MISSING) is not _MISSING:
+            return False
+        conds += [Eq(view[k], want[k]) if not isinstance(want[k], dict) else dict(view[k]) == want[k] for k in want]
+    for name, path in FIELD_PARTS.items():
+        if name in skip:
+            continue
+        present, v = _field(raw, path)
+        if name not in kw:
+            return False
+        conds.append(kw[name] is None if (not present or v is None) else Eq(kw[name], v))
+    return And(True, *conds)
+
+
+@harness('KC3', targets=[f'{EXECUTION}.Cause._kwargs', f'{CAUSES}.BaseCause._kwargs', f'{CAUSES}.BaseCause._super_kwargs'],
+         props=['C05', 'C15', 'C17', 'C09', 'C18'],
+         clauses=['total', 'every_record_offered', 'parent_kwargs_kept', 'no_global_indices_kwarg', 'each_index_under_its_name'],
+         canaries=['canary.no_indices_declared'])
+def KC3(vc):
+    """
+    The two lowest kwargs builders and the index kwargs, for a real instance of EVERY cause class:
+      every_record_offered     execution.Cause._kwargs: each record (dataclass field) of the cause -- logger, memo, resource,
+                               body, patch, event, type, reason, old, new, diff, dryrun, warnings, userinfo, ... --
+                               under its own name, bound to that very object (what the upper builders and, in the end, the
+                               documented kwargs rest on);
+      parent_kwargs_kept / no_global_indices_kwarg   BaseCause._kwargs: the same, minus `indices` ("There is no global
+                               structure to access all indices at once", docs/kwargs.rst "In-memory indices");
+      each_index_under_its_name   BaseCause._super_kwargs: "Each index is exposed in kwargs under its name": exactly the
+                               declared indices (none, one, several, some named like framework kwargs), each its own.
+    """
+    classes = ('Cause', 'BaseCause') + tuple(DOCUMENTED)
+    clsname = classes[vc.nondet(len(classes), 'class of the cause')]
+    which = vc.nondet(3, 'Cause._kwargs / BaseCause._kwargs / BaseCause._super_kwargs')
+    if which > 0 and clsname == 'Cause':
+        clsname = 'BaseCause'
+    indices = draw_indices(vc)
+    cause = make_cause(vc, clsname, indices=indices)
+    if which == 0:
+        kw = call_total(vc, 'total', vc.load(EXECUTION, 'Cause._kwargs').fn, cause)
+        vc.ensure('every_record_offered', isinstance(kw, dict) and kept(kw, record_kwargs(cause)))
+        out = sorted(kw)
+    elif which == 1:
+        sup, parent = parent_stub(_kwargs=record_kwargs(cause))
+        vc.used('execution.Cause._kwargs', 'KC3')
+        kw = call_total(vc, 'total', vc.load(CAUSES, 'BaseCause._kwargs', stubs={'super': sup}).fn, cause)
+        vc.ensure('parent_kwargs_kept', isinstance(kw, dict) and kept(kw, parent['_kwargs'], except_=('indices',)))
+        vc.ensure('no_global_indices_kwarg', 'indices' not in kw)
+        out = sorted(kw)
+    else:
+        kw = call_total(vc, 'total', vc.load(CAUSES, 'BaseCause._super_kwargs').fn, cause)
+        vc.ensure('each_index_under_its_name', isinstance(kw, dict) and set(kw) == set(indices) and all(kw[n] is indices[n] for n in indices))
+        vc.canary('canary.no_indices_declared', not kw)
+        out = sorted(kw)
+    return (clsname, which, out)
+
+
+@harness('KC4', targets=f'{CAUSES}.ResourceCause._kwargs', props=['C15', 'C05', 'C09', 'C18', 'C17'],
+         clauses=['total', 'parent_kwargs_kept', 'body_parts_of_the_body_at_hand', 'views_are_live'],
+         canaries=['canary.always_namespaced'],
+         trusted=['bodies.Body and its views run as real code (inlined): contract KC9 (arbitrary JSON bodies)'],
+         assumes=['bodies of the SHAPES full / cluster-scoped bare / without metadata / null fields and empty stanzas, with '
+                  'arbitrary (possibly empty) strings as values; the general reading behaviour of the views over arbitrary JSON is KC9'])
+def KC4(vc):
+    """
+    ResourceCause._kwargs -- docs/kwargs.rst "Body parts", for every resource cause class: on top of the parent's kwargs
+    (all kept: resource, body, logger, patch, memo, ...), `spec`, `meta`, `status` "are live-views into body['spec'],
+    body['metadata'], body['status']"; `labels`, `annotations` "are equivalents of body['metadata']['labels'] / ['annotations']
+    when they exist. If they do not, these two behave as empty dicts"; `namespace`, `name`, `uid` "are aliases for the
+    respective fields in body['metadata']. If the values are not present ... None" -- all of THE cause's body, none
+    swapped (body_parts_of_the_body_at_hand); the five views keep showing the body after its source is replaced, as the
+    daemons' body is on every event (views_are_live).
+    """
+    from kopf._cogs.structs import bodies
+    clsname = RESOURCE_CAUSES[vc.nondet(len(RESOURCE_CAUSES), 'class of the cause')]
+    raw = draw_shaped_raw(vc)
+    cause = make_cause(vc, clsname, body=bodies.Body(raw))
+    sup, parent = parent_stub(_kwargs=record_kwargs(cause, without=('indices',)))
+    vc.used('causes.BaseCause._kwargs', 'KC3')
+    kw = call_total(vc, 'total', vc.load(CAUSES, 'ResourceCause._kwargs', stubs={'super': sup}).fn, cause)
+    vc.ensure('parent_kwargs_kept', isinstance(kw, dict) and kept(kw, parent['_kwargs']))
+    vc.ensure('body_parts_of_the_body_at_hand', parts_bound(kw, raw))
+    vc.canary('canary.always_namespaced', kw.get('namespace') is not None)
+    raw2 = full_raw(vc, '!later')
+    cause.body._replace_with(raw2)
+    later = dict(kw, **{n: (_field(raw2, p)[1]) for n, p in FIELD_PARTS.items()})   # (uid/name/namespace are plain values)
+    vc.ensure('views_are_live', parts_bound(later, raw2))
+    return (clsname, sorted(kw))
+
+
+@harness('KC5', targets=[f'{CAUSES}.WebhookCause._kwargs', f'{CAUSES}.SpawningCause._kwargs', f'{CAUSES}.ChangingCause._kwargs',
+                         f'{CAUSES}.DaemonCause._kwargs'], props=['C18', 'C09', 'C05', 'C15'],
+         clauses=['total', 'parent_kwargs_kept', 'webhook_type_not_passed_as_reason'], canaries=['canary.nothing_hidden'])
+def KC5(vc):
+    """
+    The builders of the four specialised causes only take the framework's own bookkeeping records away (webhook id and
+    type, `reset`, `initial`, `stopper`): EVERYTHING else the parent offers -- the documented kwargs: resource, body and
+    its parts, logger, patch, memo, reason/old/new/diff, dryrun/warnings/subresource/userinfo/headers/sslpeer -- stays,
+    bound to the same objects (parent_kwargs_kept); and an admission handler does not get the webhook type under the
+    name `reason`, which docs/kwargs.rst defines as "the type of change detected (creation, update, deletion, resuming)"
+    (webhook_type_not_passed_as_reason).
+    """
+    clsname = tuple(INTERNAL)[vc.nondet(len(INTERNAL), 'class of the cause')]
+    cause = make_cause(vc, clsname)
+    below = dict(record_kwargs(cause, without=('indices',)), **{n: Opaque(f'part:{n}') for n in tuple(VIEW_PARTS) + tuple(FIELD_PARTS)})
+    sup, parent = parent_stub(_kwargs=below)
+    vc.used('causes.ResourceCause._kwargs', 'KC4')
+    kw = call_total(vc, 'total', vc.load(CAUSES, f'{clsname}._kwargs', stubs={'super': sup}).fn, cause)
+    vc.ensure('parent_kwargs_kept', isinstance(kw, dict) and kept(kw, parent['_kwargs'], except_=INTERNAL[clsname]))
+    if clsname == 'WebhookCause':
+        vc.ensure('webhook_type_not_passed_as_reason', 'reason' not in kw)
+    vc.canary('canary.nothing_hidden', len(kw) == len(parent['_kwargs']))
+    return (clsname, sorted(kw))
+
+
+@harness('KC6', targets=[f'{CAUSES}.DaemonCause._sync_kwargs', f'{CAUSES}.DaemonCause._async_kwargs'], props=['C09', 'C15'],
+         clauses=['total', 'parent_kwargs_kept', 'stopped_is_the_waiter_of_its_kind'], canaries=['canary.sync_gets_the_async_waiter'])
+def KC6(vc):
+    """
+    DaemonCause._sync_kwargs/_async_kwargs (docs/kwargs.rst "Stop-flag", docs/daemons.rst): a daemon gets, on top of all
+    other kwargs, `stopped` -- for a SYNC daemon (run in a thread: `while not stopped: stopped.wait(10)`) the stopper's
+    synchronous waiter, for an ASYNC one (`await stopped.wait(10)`) its asynchronous waiter; of THIS daemon's stopper.
+    """
+    flavour = ('sync', 'async')[vc.nondet(2, 'sync / async')]
+    cause = make_cause(vc, 'DaemonCause')
+    below = {'body': cause.body, 'patch': cause.patch, 'logger': cause.logger, 'memo': cause.memo, 'spec': Opaque('part:spec')}
+    other = {'stopped': Opaque('wrong: the other flavour'), 'other': Opaque('other')}
+    sup, parent = parent_stub(**{f'_{flavour}_kwargs': below, f'_{"async" if flavour == "sync" else "sync"}_kwargs': other, '_kwargs': below})
+    vc.used('invocation.Kwargable._sync_kwargs/_async_kwargs', 'KC7')
+    kw = call_total(vc, 'total', vc.load(CAUSES, f'DaemonCause._{flavour}_kwargs', stubs={'super': sup}).fn, cause)
+    vc.ensure('parent_kwargs_kept', isinstance(kw, dict) and kept(kw, parent[f'_{flavour}_kwargs']))
+    vc.ensure('stopped_is_the_waiter_of_its_kind', kw.get('stopped') is getattr(cause.stopper, f'{flavour}_waiter'))
+    vc.canary('canary.sync_gets_the_async_waiter', kw.get('stopped') is cause.stopper.async_waiter)
+    return (flavour, sorted(kw))
+
+
+FLAVOURS = {'kwargs': '_kwargs', 'sync_kwargs': '_sync_kwargs', 'async_kwargs': '_async_kwargs'}
+
+
+@harness('KC7', targets=[f'{INVOCATION}.Kwargable.{n}' for n in ('_kwargs', '_sync_kwargs', '_async_kwargs', '_super_kwargs',
+                                                                  'kwargs', 'sync_kwargs', 'async_kwargs')],
+         props=['C15', 'C09', 'C11', 'C17', 'C18'],
+         clauses=['total', 'own_kwargs_of_the_asked_flavour', 'indices_win', 'defaults'], canaries=['canary.no_clash'])
+def KC7(vc):
+    """
+    invocation.Kwargable -- what invoke() (X6) and the filter callbacks take from a cause:
+      own_kwargs_of_the_asked_flavour   .kwargs / .sync_kwargs / .async_kwargs carry every entry of the cause's
+                         _kwargs / _sync_kwargs / _async_kwargs respectively (a sync function gets the sync set, an async
+                         one the async set -- `stopped` of daemons differs) plus every entry of _super_kwargs (the indices);
+      indices_win        where both have a name, the index wins ("Indices overwrite any other kwargs, even the existing
+                         ones ... for forwards & backwards compatibility", BaseCause; docs/kwargs.rst: "Each index is
+                         exposed in kwargs under its name");  nothing else is in the result;
+      defaults           a plain Kwargable has no kwargs and no indices, and its sync/async sets are its _kwargs.
+    """
+    which = vc.nondet(2, 'the merging properties / the defaults')
+    if which == 1:
+        name = ('_kwargs', '_super_kwargs', '_sync_kwargs', '_async_kwargs')[vc.nondet(4, 'which default')]
+        own = {'a': Opaque('a')}
+        me = Opaque('kwargable', _kwargs=own, _sync_kwargs={'wrong': 1}, _async_kwargs={'wrong': 2}, _super_kwargs={'wrong': 3})
+        got = call_total(vc, 'total', vc.load(INVOCATION, f'Kwargable.{name}').fn, me)
+        vc.ensure('defaults', got == {} if name in ('_kwargs', '_super_kwargs') else (got == own and got['a'] is own['a']))
+        return ('default', name)
+    flavour = tuple(FLAVOURS)[vc.nondet(3, 'kwargs / sync_kwargs / async_kwargs')]
+    clash = vc.nondet(2, 'an index named like a kwarg: no / yes') == 1
+    sets = {attr: {'body': Opaque(f'{attr}:body'), 'stopped': Opaque(f'{attr}:stopped'), attr: Opaque(f'only in {attr}')}
+            for attr in FLAVOURS.values()}
+    idx = {'by_label': Opaque('index:by_label')}
+    if clash:
+        idx['body'] = Opaque('index:body')
+    if vc.nondet(2, 'indices: some / none') == 1:
+        idx = {}
+    me = Opaque('kwargable', _super_kwargs=idx, **sets)
+    got = call_total(vc, 'total', vc.load(INVOCATION, f'Kwargable.{flavour}').fn, me)
+    own = sets[FLAVOURS[flavour]]
+    vc.ensure('own_kwargs_of_the_asked_flavour', isinstance(got, dict) and all(k in got and (got[k] is v or k in idx) for k, v in own.items())
+              and set(got) == set(own) | set(idx))
+    vc.ensure('indices_win', all(k in got and got[k] is v for k, v in idx.items()))
+    vc.canary('canary.no_clash', all(got.get(k) is v for k, v in own.items()))
+    return (flavour, clash, sorted(got))
+
+
+CONCRETE_CAUSES = ('ActivityCause', 'IndexingCause', 'WatchingCause', 'SpawningCause', 'ChangingCause', 'DaemonCause', 'WebhookCause')
+
+
+@harness('KC8', targets=[f'{INVOCATION}.Kwargable.{n}' for n in FLAVOURS], props=['C15', 'C05', 'C09', 'C18', 'C17', 'C11'],
+         clauses=['total', 'documented_kwargs', 'body_parts_of_the_body_at_hand', 'each_index_under_its_name_and_wins',
+                  'stopped_for_daemons', 'not_for_this_kind'],
+         canaries=['canary.framework_kwarg_never_shadowed', 'canary.never_stopped'],
+         trusted=['the _kwargs/_sync_kwargs/_async_kwargs/_super_kwargs builders of causes.py and execution.py run as real code, '
+                  'through the real class hierarchy (their own contracts: KC3-KC6)', 'bodies.Body views: KC9'],
+         assumes=['bodies of the four SHAPES (see KC4); 0-3 declared indices, some named like framework kwargs'])
+def KC8(vc):
+    """
+    INTEGRATION of KC3-KC7 through the REAL class hierarchy (the modular contracts take each `super()` by contract; here
+    the real method resolution is exercised): for a real instance of every concrete cause class, what a callback gets --
+    .kwargs (filters, lifecycles, delays), .sync_kwargs / .async_kwargs (handlers; invoke, X6) -- against docs/kwargs.rst:
+      documented_kwargs   the names documented for this kind of handler (activity: settings, logger, memo; every
+                          resource handler: resource, body, logger, patch, memo; watching: + event, type; changing:
+                          + reason, old, new, diff; admission: + dryrun, warnings (the very list: it is mutable), subresource,
+                          userinfo, headers, sslpeer) are there, each bound to that record of the cause;
+      body_parts_of_the_body_at_hand   spec, meta, status, labels, annotations, uid, name, namespace as in KC4;
+      each_index_under_its_name_and_wins   every declared index under its name, also over a framework kwarg of that name;
+      stopped_for_daemons sync flavour: the stopper's sync waiter, async flavour: its async waiter;
+      not_for_this_kind   no `indices` kwarg; `settings` only for activities ("passed to activity handlers (but not to
+                          resource handlers)"); no webhook type under the name `reason`; no `stopped` for non-daemons.
+    """
+    from kopf._cogs.structs import bodies
+    clsname = CONCRETE_CAUSES[vc.nondet(len(CONCRETE_CAUSES), 'class of the cause')]
+    flavour = tuple(FLAVOURS)[vc.nondet(3, 'kwargs / sync_kwargs / async_kwargs')]
+    indices = draw_indices(vc)
+    raw = draw_shaped_raw(vc) if clsname != 'ActivityCause' else None
+    cause = make_cause(vc, clsname, body=None if raw is None else bodies.Body(raw), indices=indices)
+    kw = call_total(vc, 'total', vc.load(INVOCATION, f'Kwargable.{flavour}').fn, cause)
+    vc.ensure('total', isinstance(kw, dict))
+    mine = {n: v for n, v in kw.items() if n not in indices}          # (what is not shadowed by an index)
+    vc.ensure('each_index_under_its_name_and_wins', all(n in kw and kw[n] is indices[n] for n in indices))
+    vc.ensure('documented_kwargs', all((n in mine and mine[n] is getattr(cause, n, _MISSING)) or n in indices for n in DOCUMENTED[clsname]))
+    if raw is not None:
+        # (a body part shadowed by a same-named index is the operator's own doing: the others are judged)
+        vc.ensure('body_parts_of_the_body_at_hand', parts_bound(kw, raw, skip=tuple(indices)))
+    if clsname == 'DaemonCause' and flavour != 'kwargs' and 'stopped' not in indices:
+        vc.ensure('stopped_for_daemons', kw.get('stopped') is getattr(cause.stopper, flavour.replace('_kwargs', '_waiter')))
+        vc.canary('canary.never_stopped', 'stopped' not in kw)
+    else:
+        vc.ensure('stopped_for_daemons', clsname == 'DaemonCause' or 'stopped' not in mine)
+    vc.ensure('not_for_this_kind', 'indices' not in mine and ('settings' in mine) == (clsname == 'ActivityCause')
+              and (clsname != 'WebhookCause' or 'reason' not in mine))
+    if 'body' in DOCUMENTED[clsname]:
+        vc.canary('canary.framework_kwarg_never_shadowed', kw.get('body') is getattr(cause, 'body', _MISSING))
+    return (clsname, flavour, sorted(kw))
+
+
+# =============================================================================================== invocation.is_async_fn
+def _returns_awaitable(fn):
+    """ORACLE, independent of `inspect`: what invoke() needs to know -- does calling fn give something to await?
+    (the sample functions take no required arguments and have no effects)"""
+    import inspect
+    r = fn()
+    aw = inspect.isawaitable(r)
+    if hasattr(r, 'close'):
+        r.close()
+    return aw
+
+
+class _Sample:
+    def sync_method(self, **_): return 1
+    async def async_method(self, **_): return 1
+
+
+def _plain_functions():
+    def sync_fn(**_): return 1
+    async def async_fn(**_): return 1
+    return {'def': sync_fn, 'async def': async_fn, 'lambda': (lambda **_: 1), 'bound method': _Sample().sync_method,
+            'bound async method': _Sample().async_method, 'builtin': dict}
+
+
+def _wrap(kind, inner):
+    """one layer over `inner`: a partial, a decorated sync wrapper (functools.wraps: passes the result through), or a
+    decorated async wrapper that awaits the wrapped coroutine function"""
+    import functools
+    if kind == 'partial':
+        return functools.partial(inner, extra=1)
+    if kind == 'wrapper':
+        @functools.wraps(inner)
+        def wrapper(*a, **kw):
+            return inner(*a, **kw)
+        return wrapper
+
+    @functools.wraps(inner)
+    async def awaiter(*a, **kw):
+        return await inner(*a, **kw)
+    return awaiter
+
+
+LAYERS = ('partial', 'wrapper', 'awaiter')
+
+
+@harness('KC10', targets=f'{INVOCATION}.is_async_fn', props=['C11', 'C09', 'C20'],
+         clauses=['total', 'none_is_not_async', 'plain_functions', 'partials_and_wrappers_are_transparent', 'awaitable_iff_async'],
+         canaries=['canary.everything_is_sync', 'canary.never_recurses'],
+         assumes=['handlers are functions, lambdas, bound methods, classes/builtins, or functools.partial objects / decorated '
+                  '(functools.wraps) wrappers of such ("Both sync & async functions are supported, so as their partials. Also, '
+                  'decorated wrappers and lambdas are recognized"); a sync function does not return an awaitable; a decorated '
+                  '`async def` wrapper wraps (awaits) a coroutine function -- an async wrapper around a SYNC function is '
+                  'classified by the wrapped one, i.e. as sync (see the report: outside the domain)',
+                  'scenario "chains": wrapper chains of depth <= 3 over 6 kinds of plain functions (the recursion runs for real)'],
+         trusted=['inspect.iscoroutinefunction (stdlib) on plain functions -- checked here against actually calling them'])
+def KC10(vc):
+    """
+    invocation.is_async_fn decides "await fn(**kwargs) in the loop" vs "run fn in the executor's thread" (invoke, X6):
+      none_is_not_async   None (no function) is not async;
+      plain_functions     a function / lambda / bound method / class is async iff calling it yields an awaitable;
+      partials_and_wrappers_are_transparent   (induction step, the recursive call taken by contract -- any depth) a
+                          functools.partial is what its .func is, a decorated wrapper (__wrapped__) is what the wrapped
+                          function is: the recursion asks about exactly that object, once, and passes the answer on;
+      awaitable_iff_async (the recursion for real, chains of depth <= 3) is_async_fn(fn) <=> fn(...) returns an awaitable.
+    """
+    import functools
+    ld = vc.load(INVOCATION, 'is_async_fn')
+    scenario = vc.nondet(3, 'None & plain functions / one layer by contract / chains for real')
+    plain = _plain_functions()
+    if scenario == 0:
+        kind = (None,) + tuple(plain)
+        kind = kind[vc.nondet(len(kind), 'the function')]
+        fn = None if kind is None else plain[kind]
+        got = call_total(vc, 'total', ld.fn, fn)
+        if fn is None:
+            vc.ensure('none_is_not_async', got is False)
+        else:
+            vc.ensure('plain_functions', got is _returns_awaitable(fn))
+        vc.canary('canary.everything_is_sync', got is False)
+        return ('plain', kind, got)
+    if scenario == 1:
+        layer = LAYERS[vc.nondet(len(LAYERS), 'the outer layer')]
+        inner_kind = tuple(plain)[vc.nondet(len(plain), 'the inner function')]
+        inner = plain[inner_kind]
+        if vc.nondet(2, 'the inner function is itself: plain / a partial') == 1 and layer != 'partial':
+            inner = functools.partial(inner)        # (functools.partial flattens partial-of-partial by itself)
+        answer = vc.bool('is_async_fn(inner), by contract')
+        if layer == 'awaiter':
+            vc.assume(answer, 'an async wrapper wraps a coroutine function (see assumes)')
+        asked = []
+
+        def recursive_call(x):
+            asked.append(x)
+            return answer
+        ld.ns['is_async_fn'] = recursive_call           # the recursive call, by contract (induction hypothesis)
+        vc.used('invocation.is_async_fn (recursive call)', 'KC10')
+        fn = _wrap(layer, inner)
+        got = call_total(vc, 'total', ld.fn, fn)
+        vc.ensure('partials_and_wrappers_are_transparent', len(asked) == 1 and asked[0] is inner)
+        vc.ensure('partials_and_wrappers_are_transparent', Iff(got, answer))
+        vc.canary('canary.never_recurses', not asked)
+        vc.canary('canary.everything_is_sync', Not(got))
+        return ('layer', layer, inner_kind, got)
+    base_kind = tuple(plain)[vc.nondet(len(plain), 'the innermost function')]
+    fn = plain[base_kind]
+    is_async = _returns_awaitable(fn)
+    depth = vc.nondet(4, 'depth of the chain: 0..3')
+    chain = []
+    for i in range(depth):
+        options = LAYERS if is_async else LAYERS[:2]          # (an awaiter only over a coroutine function)
+        layer = options[vc.nondet(len(options), f'layer {i + 1}')]
+        chain.append(layer)
+        fn = _wrap(layer, fn)
+    got = call_total(vc, 'total', ld.fn, fn)
+    vc.ensure('awaitable_iff_async', got is is_async and got is _returns_awaitable(fn))
+    vc.canary('canary.everything_is_sync', got is False)
+    return ('chain', base_kind, tuple(chain), got)
